@@ -251,6 +251,7 @@ Proof.
   assert (E1 : clampR (12 * (1 / 192000)) lit_1e4 lit_half = lit_1e4).
   { unfold clampR. rewrite Rmin_right by (unfold lit_1e4, lit_half; lra). apply Rmax_left. unfold lit_1e4; lra. }
   assert (E2 : clampR (lit_1e4 * 192000 * (1 / 192000)) lit_1e4 lit_half = lit_1e4).
-  { apply clampR_id. unfold lit_1e4, lit_half. lra. }
+  { replace (lit_1e4 * 192000 * (1 / 192000)) with lit_1e4 by (unfold lit_1e4; field).
+    apply clampR_id. unfold lit_1e4, lit_half. lra. }
   rewrite E1, E2. reflexivity.
 Qed.
